@@ -222,6 +222,10 @@ func init() {
 		fr.w.opaqueParseFloat = liftBool(args[0]) == trueT
 		return nil
 	})
+	reg(zz+"SplitDiv", func(fr *frame, args []Value) Value {
+		fr.w.splitDiv = liftBool(args[0]) == trueT
+		return nil
+	})
 	reg(zz+"LoopBound", func(fr *frame, args []Value) Value {
 		fr.w.loopBound = int(fr.w.concInt(args[0]))
 		return nil
@@ -708,7 +712,9 @@ func init() {
 		if n == 0 {
 			return Str{}, true
 		}
-		if p.Branch(tGt(cnt, intConst(repeatCap))) {
+		if cnt.isConst() && cnt.val.IsInt64() && cnt.val.Int64()*n <= 4096 {
+			// a concrete, small result: just build it
+		} else if p.Branch(tGt(cnt, intConst(repeatCap))) {
 			w.stub("strings.Repeat with more than 3 copies: path ended (memory use is outside the claim)")
 			panic(pathEnd{"strings.Repeat beyond the cap"})
 		}
